@@ -151,7 +151,7 @@ Section Ser.
     destruct m as [|tl tll]; destruct pm as [|d]; try contradiction.
     - (* scanning literal text *)
       cbn [ser_go ser_data] in *.
-      destruct (classify c) eqn:EC; try discriminate;
+      destruct (classify_fx true c) eqn:EC; try discriminate;
         try (apply IH; [exact Hlen' | exact I | exact Hwf | exact Hb | exact Hl | exact Hroom]).
       (* CPct: the directive state starts afresh *)
       eapply sgoal_same with (st' := mkS (s_buf st) (s_loc st) 0 false (s_args st)); [reflexivity | reflexivity |].
@@ -168,7 +168,7 @@ Section Ser.
       assert (Hkeep : forall d', rel_len tl tll d' -> p_plen d' = p_plen d -> p_prec d' = p_prec d ->
                  srel (SDir tl tll) (PDir d') st).
       { intros d' H1 H2 H3. cbn. rewrite H2, H3. auto. }
-      destruct (classify c) eqn:EC; try discriminate.
+      destruct (classify_fx true c) eqn:EC; try discriminate.
       + (* CFlag *)
         apply IH; [exact Hlen' | apply Hkeep; auto | exact Hwf | exact Hb | exact Hl | exact Hroom].
       + (* CDot *)
@@ -180,7 +180,8 @@ Section Ser.
         rewrite Hsp. destruct (p_prec d) eqn:EP.
         * apply Z.ltb_lt in HP.
           assert (Hc : 48 <= c <= 57).
-          { unfold classify in EC. destruct (c =? 0); [discriminate|].
+          { unfold classify_fx in EC. cbn [andb] in EC. destruct (c =? 104); [discriminate|].
+            unfold classify in EC. destruct (c =? 0); [discriminate|].
             destruct ((c =? 35) || (c =? 45) || (c =? 32) || (c =? 43) || (c =? 39) || (c =? 73)); [discriminate|].
             destruct (c =? 46); [discriminate|].
             destruct ((48 <=? c) && (c <=? 57)) eqn:E.
@@ -201,7 +202,7 @@ Section Ser.
         apply andb_true_iff in Hwf. destruct Hwf as [_ Hwf].
         rewrite va_scalar_next, EN. cbn [fst snd].
         rewrite zlen_app, zlen_scalar_bytes in Hroom by lia.
-        pose proof (zlen_nonneg _ (ser_data f' (PDir (pd_add d (dec (to_signed (8 * LF_SIZEOF_INT) (arg_raw a))))) args')).
+        pose proof (zlen_nonneg _ (ser_data f' (PDir (pd_star d (to_signed (8 * LF_SIZEOF_INT) (arg_raw a)))) args')).
         replace (max <? s_loc st + LF_SIZEOF_INT) with false by (symmetry; apply Z.ltb_ge; lia).
         destruct (store_bytes_append (s_buf st) (s_loc st) (scalar_bytes LF_SIZEOF_INT a)) as [b [E [L T]]];
           [lia | rewrite zlen_scalar_bytes; lia |].
@@ -223,8 +224,8 @@ Section Ser.
         * (* second 'l' *)
           cbn [wf_go] in Hwf. change ((108 =? 0) || (108 =? LF_XC)) with false in Hwf. cbv iota in Hwf.
           rewrite EN in Hwf. apply andb_true_iff in Hwf. destruct Hwf as [HG2 Hwf].
-          change (classify 108) with CEll in Hwf.
-          cbn [ser_data] in Hroom |- *. rewrite EN in Hroom |- *. change (classify 108) with CEll in Hroom |- *.
+          change (classify_fx true 108) with CEll in Hwf.
+          cbn [ser_data] in Hroom |- *. rewrite EN in Hroom |- *. change (classify_fx true 108) with CEll in Hroom |- *.
           apply IH; [cbn [length] in Hlen'; lia | | exact Hwf | exact Hb | exact Hl | exact Hroom].
           unfold srel, rel_len; cbn [p_l p_plen p_prec]. destruct Hrl as [Hl0 _]. split; [|auto]. split; [lia|].
           symmetry. apply negb_true_iff. apply Z.eqb_neq. lia.
